@@ -210,7 +210,7 @@ func C19(c *vf.Ctx) {
 	// seeded sample of the 3- and 4-thread ones
 	nsim := 400 // per TLC worker (4 workers)
 	if !q {
-		nsim = 12000
+		nsim = 3000
 	}
 	for _, n := range []int{3, 4} {
 		name, mod, cfg := sigCfg(n, sigAllOps, true, true)
